@@ -528,7 +528,7 @@ pub const ROLL_DRIVERS: u8 = 12;
 /// pseudo driver: `v.opt().slice(s, e)` for every window in and just outside the view
 pub const SLICE_SWEEP: u8 = 20;
 
-fn drive<V>(v: &V, driver: u8, w: usize) -> Result<(), String>
+fn drive<V>(v: &V, o: &V, driver: u8, w: usize) -> Result<(), String>
 where
     V: Vec1View<f64>,
 {
@@ -541,10 +541,10 @@ where
                 v.rolling_apply_idx(w, |s, e, _x| (e - s.unwrap_or(0)) as i32, None).unwrap();
         },
         2 => {
-            let _: SimVec<f64> = v.rolling2_apply(v, w, |_rm, (a, b)| a + b, None).unwrap();
+            let _: SimVec<f64> = v.rolling2_apply(o, w, |_rm, (a, b)| a + b, None).unwrap();
         },
         3 => {
-            let _: SimVec<f64> = v.rolling2_apply_idx(v, w, |_s, _e, (a, b)| a - b, None).unwrap();
+            let _: SimVec<f64> = v.rolling2_apply_idx(o, w, |_s, _e, (a, b)| a - b, None).unwrap();
         },
         6 => {
             let _: SimVec<f64> = v.ts_sum(w, None);
@@ -559,7 +559,7 @@ where
             let _: SimVec<f64> = v.ts_vmax(w, None);
         },
         10 => {
-            let _: SimVec<f64> = v.ts_vcorr(v, w, None);
+            let _: SimVec<f64> = v.ts_vcorr(o, w, None);
         },
         11 => {
             let _: SimVec<f64> = v.ts_vrank(w, None, false, false);
@@ -652,6 +652,13 @@ pub fn check_roll(r: &Roll) -> (Vec<Violation>, RunStats) {
     st.executions += 1;
     let (driver, w) = (r.driver, r.window);
     let backend = r.backend.clone();
+    // the second series of the two-series drivers: same values, possibly shorter or longer.
+    // A different length is only used where the library reads the second series through
+    // checked accessors (lazy paths, VecDeque's `get`); the buffer paths of Vec / ndarray
+    // read it unchecked, which is a caller contract (DESIGN 8.3), not exercised here.
+    let other_len = (data.len() as i64 + r.other_delta).max(0) as usize;
+    let other: Vec<f64> = (0..other_len).map(|i| if i < data.len() { data[i] } else { i as f64 * 0.5 }).collect();
+    let unequal = other_len != data.len();
     let res = guarded(move || -> Result<(), String> {
         match &backend {
             Backend::Vec => match driver {
@@ -659,16 +666,18 @@ pub fn check_roll(r: &Roll) -> (Vec<Violation>, RunStats) {
                     let _: SimVec<i32> = data.rolling_custom(w, |s: &[f64]| s.len() as i32, None).unwrap();
                     Ok(())
                 },
+                _ if unequal => Err(format!("{HARNESS} unequal series are not used with buffer-path backends")),
                 5 => {
                     let _: SimVec<i32> = data
                         .rolling2_custom(&data, w, |a: &[f64], b: &[f64]| (a.len() + b.len()) as i32, None)
                         .unwrap();
                     Ok(())
                 },
-                d => drive(&data, d, w),
+                d => drive(&data, &data, d, w),
             },
             Backend::Deque { head } => {
                 let v = make_deque(data, *head);
+                let o = make_deque(other, (*head + 1) % 4);
                 match driver {
                     4 => {
                         let _: SimVec<i32> = v
@@ -681,7 +690,7 @@ pub fn check_roll(r: &Roll) -> (Vec<Violation>, RunStats) {
                     5 => {
                         let _: SimVec<i32> = v
                             .rolling2_custom(
-                                &v,
+                                &o,
                                 w,
                                 |a: std::collections::vec_deque::Iter<'_, f64>,
                                  b: std::collections::vec_deque::Iter<'_, f64>| {
@@ -692,12 +701,20 @@ pub fn check_roll(r: &Roll) -> (Vec<Violation>, RunStats) {
                             .unwrap();
                         Ok(())
                     },
-                    d => drive(&v, d, w),
+                    d => drive(&v, &o, d, w),
                 }
             },
-            Backend::ArcDeque { head } => drive(&Arc::new(make_deque(data, *head)), driver, w),
-            Backend::Array1 => drive(&Array1::from_vec(data), driver, w),
-            Backend::SimInput => drive(&SimVec::from_vec(data), driver, w),
+            Backend::ArcDeque { head } => {
+                drive(&Arc::new(make_deque(data, *head)), &Arc::new(make_deque(other, *head)), driver, w)
+            },
+            Backend::Array1 if unequal => {
+                Err(format!("{HARNESS} unequal series are not used with buffer-path backends"))
+            },
+            Backend::Array1 => {
+                let a = Array1::from_vec(data);
+                drive(&a, &a, driver, w)
+            },
+            Backend::SimInput => drive(&SimVec::from_vec(data), &SimVec::from_vec(other), driver, w),
             _ => Err(format!("{HARNESS} backend not available for rolling scenarios")),
         }
     });
@@ -740,11 +757,17 @@ pub fn check_roll(r: &Roll) -> (Vec<Violation>, RunStats) {
     if r.window > r.data.len() {
         st.hit("window_gt_len");
     }
+    if r.other_delta < 0 {
+        st.hit("second_series_shorter");
+    } else if r.other_delta > 0 {
+        st.hit("second_series_longer");
+    }
     if r.data.is_empty() {
         st.fault("empty_input");
     }
     let sig = format!(
-        "roll|{}|{}|{}|{}|{}",
+        "roll|{}|{}|{}|{}|{}|{}",
+        r.other_delta.signum(),
         r.backend.kind(),
         r.driver,
         lazy,
